@@ -12,6 +12,11 @@ pub struct PairCase {
     pub a: Inst,
     pub b: Inst,
     pub datetime: bool,
+    /// offsets carried by a and b (DateTime only): they must not change any difference
+    #[serde(default)]
+    pub oa: i32,
+    #[serde(default)]
+    pub ob: i32,
 }
 
 /// model: b + n months as an instant (b's day of month <= 28, so no clamping happens)
@@ -129,16 +134,49 @@ impl Prop for Pair {
             }
             _ => gen::inst_near(u, a, 1)?,
         };
-        Ok(PairCase { a, b, datetime: u.coin(1, 2)? })
+        let datetime = u.coin(1, 2)?;
+        let (oa, ob) = if datetime && u.coin(1, 2)? { (gen::offset(u)?, gen::offset(u)?) } else { (0, 0) };
+        Ok(PairCase { a, b, datetime, oa, ob })
     }
     fn check(c: &PairCase, cx: &mut Cx) -> Verdict {
-        if !c.a.valid() || !c.b.valid() {
+        if !c.a.valid() || !c.b.valid() || c.oa.abs() > 86_399 || c.ob.abs() > 86_399 {
             return Verdict::Skip("malformed case");
         }
-        match judge_pair(c.a, c.b, c.datetime, cx) {
-            Ok(_) => Verdict::Pass,
-            Err(v) => v,
+        let (m0, y0) = match judge_pair(c.a, c.b, c.datetime, cx) {
+            Ok(v) => v,
+            Err(v) => return v,
+        };
+        if c.datetime && (c.oa != 0 || c.ob != 0) {
+            // an offset changes the reading, never the instant nor any difference (C10): the same
+            // pair carrying offsets must give the same counts
+            let lo = cal::MIN_DAY + 2;
+            let hi = cal::MAX_DAY - 2;
+            if c.a.day < lo || c.a.day > hi || c.b.day < lo || c.b.day > hi {
+                return Verdict::Pass;
+            }
+            cx.nt("operands_carry_offsets");
+            let r = catch(|| {
+                let a = mk_dt_off(c.a.i(), c.oa);
+                let b = mk_dt_off(c.b.i(), c.ob);
+                (a.months_since(&b), a.years_since(&b), b.months_since(&a), b.years_since(&a))
+            });
+            match r {
+                Err(p) => return fail("c07.panic", "months_since / years_since with offsets return", p.short()),
+                Ok((m, y, mr, yr)) => {
+                    if (m, y, mr, yr) != (m0, y0, -m0, -y0) {
+                        return fail(
+                            "c07.offset_changes_difference",
+                            format!(
+                                "months/years_since of {} [{}] since {} [{}] = ({}, {}) and reversed ({}, {}), as without offsets",
+                                fmt_instant(c.a.i()), c.oa, fmt_instant(c.b.i()), c.ob, m0, y0, -m0, -y0
+                            ),
+                            format!("({}, {}) / ({}, {})", m, y, mr, yr),
+                        );
+                    }
+                }
+            }
         }
+        Verdict::Pass
     }
 }
 
